@@ -799,13 +799,15 @@ class Bridge(wiring.Component):
         submodule_names = {"mux"}
         for reg, reg_name, _ in self.bus.memory_map.resources():
             # Distinct register names may be joined to the same string (e.g. ("a", "0") and
-            # ("a__0",)), or to "mux". Such a register is added as an anonymous submodule.
-            submodule_name = "__".join(str(part) for part in reg_name)
-            if submodule_name in submodule_names:
-                m.submodules += reg
-            else:
-                submodule_names.add(submodule_name)
-                m.submodules[submodule_name] = reg
+            # ("a__0",)), or to "mux". Such a register gets a numeric suffix to keep its
+            # submodule name unique.
+            joined_name = submodule_name = "__".join(str(part) for part in reg_name)
+            suffix = 0
+            while submodule_name in submodule_names:
+                suffix += 1
+                submodule_name = f"{joined_name}_{suffix}"
+            submodule_names.add(submodule_name)
+            m.submodules[submodule_name] = reg
 
         connect(m, flipped(self.bus), self._mux.bus)
 
